@@ -216,6 +216,37 @@ def requests(seed=1, size="quick"):
             out.append(("len %s %d %d" % (k, a, b), lambda mk=mk: _val(lambda: len(mk()) if True else 0)))
             for st in (a - 1, a, b - 1, b):
                 out.append(("contains %s %d %d %d" % (k, a, b, st), lambda mk=mk, st=st: _val(lambda: int(st in mk()))))
+    # the Revolve family: the operation sequence of the real object, converted by the translated iterator
+    hrv = sys.modules["checkpoint_schedules.hrevolve"]
+
+    def ops_csv(o):
+        out2 = []
+        for op in o._schedule:
+            ix = op.index
+            if isinstance(ix, (list, tuple)):
+                out2.append("%s:%d:%d" % (op.type, ix[0], ix[1]))
+            else:
+                out2.append("%s:%d" % (op.type, ix))
+        return ",".join(out2)
+    rv = []
+    for n in list(range(1, 16 if big else 11)) + [23]:
+        for cm in (1, 2, 3):
+            for costs in ((1, 1, 2, 2), (3, 1, 1, 4), (1, 2, 0, 0)):
+                rv.append((lambda n=n, cm=cm, costs=costs: cs.Revolve(n, cm, *costs)))
+                rv.append((lambda n=n, cm=cm, costs=costs: cs.DiskRevolve(n, cm, *costs)))
+                rv.append((lambda n=n, cm=cm, costs=costs: cs.PeriodicDiskRevolve(n, cm, *costs)))
+                for c1 in (0, 1, 3):
+                    rv.append((lambda n=n, cm=cm, c1=c1, costs=costs: cs.HRevolve(n, cm, c1, *costs)))
+    for mk in rv:
+        try:
+            with contextlib.redirect_stdout(io.StringIO()):
+                o = mk()
+        except Exception:   # noqa: BLE001
+            continue
+        csv = ops_csv(o)
+        out.append(("revolveIter %d %s" % (o._max_n, csv), lambda mk=mk: _client(mk(), cs, None, None)))
+        if len(csv) < 4000:
+            out.append(("lastReads %s" % csv, lambda o=o: " ".join(str(v) for v in sorted(hrv._last_reads(o._schedule), reverse=True))))
     # generators
     for N in range(1, 30 if big else 14):
         for ram in range(0, 4):
